@@ -218,6 +218,27 @@ def run(pid, tier, seed):
             if run_.crashed or run_.out != want_x:
                 rep.violation("expansion:%s" % label, "%s: links named across the log / non-log divide: stdout differs (rc=%s, got %r)"
                               % (label, run_.rc, run_.out[:200]), {"kind": "c15-xlink", "stderr": run_.err[-300:].decode(errors="replace")})
+        # entries the walk cannot follow (a dangling link, a link to itself) early in the tree: what comes after them is
+        # still expanded
+        dg = os.path.join(sc, "dangling")
+        os.makedirs(os.path.join(dg, "logs", "aaa"))
+        os.makedirs(os.path.join(dg, "logs", "bbb", "ccc"))
+        dcont = {}
+        for n_ in ("logs/aaa/first.log", "logs/bbb/second.log", "logs/bbb/ccc/third.log", "logs/zzz.log"):
+            dcont[n_] = b"".join(b"2024-01-01T00:00:00 src=%s idx=%d\n" % (n_.split("/")[-1].split(".")[0].upper().encode(), q) for q in range(2))
+            with open(os.path.join(dg, n_), "wb") as f:
+                f.write(dcont[n_])
+        os.symlink("nowhere.log", os.path.join(dg, "logs", "aaa", "dangling.log"))
+        os.symlink("self.log", os.path.join(dg, "logs", "aaa", "self.log"))
+        os.symlink("/nonexistent/dir", os.path.join(dg, "logs", "aab"))
+        want_d = b"".join(dcont[n_] for n_ in sorted(dcont))
+        for label, run_ in (("dangling-dir", common.run_s4(["--color", "never", "logs"], cwd=dg, timeout=60)),
+                            ("dangling-dir-stdin", common.run_s4(["--color", "never", "-"], cwd=dg, stdin=b"logs\n", timeout=60)),
+                            ("dangling-list", common.run_s4(["--color", "never"] + sorted(dcont), cwd=dg, timeout=60))):
+            nruns += 1
+            if run_.crashed or run_.out != want_d:
+                rep.violation("expansion:%s" % label, "%s: a dangling link early in the tree: stdout differs (rc=%s, %d of %d bytes)"
+                              % (label, run_.rc, len(run_.out), len(want_d)), {"kind": "c15-dangling", "stderr": run_.err[-300:].decode(errors="replace")})
         rep.coverage["evaluations"] = nruns
         # tar inside a walked directory: members follow the same rule as files (explicit = attempted, walked = filtered)
         d = os.path.join(sc, "tarcase", "d")
